@@ -5,18 +5,25 @@ from .series_props import specs_solver, specs_masks, fold_canaries
 
 def check(tier, seed):
     d = Decision("C20", tier, seed)
-    d.add_units(fold_canaries(run_units(specs_solver(tier) + specs_masks(tier))))
+    t = 60000 if tier == "thorough" else 20000
+    guards = [("contracts.bd_guards", "unit_h0_guards", {"nb": nb, "hermitian": h, "timeout_ms": t}) for nb, h in ((2, True), (2, False), (3, True))]
+    if tier == "thorough":
+        guards += [("contracts.bd_guards", "unit_h0_guards", {"nb": 3, "hermitian": False, "timeout_ms": t}), ("contracts.bd_guards", "unit_h0_guards", {"nb": 1, "hermitian": True, "timeout_ms": t})]
+    from .format_props import specs_keys
+    d.add_units(fold_canaries(run_units(specs_solver(tier) + specs_masks(tier) + guards + specs_keys(tier))))
     d.assumptions += [
         "A-NP2 pointwise models (see C16)",
         "sympy three-valued Hermiticity test (`expr.is_hermitian is False`) is taken as given: rejection of symbolic non-Hermitian input is decided only when sympy decides",
     ]
     d.not_decided += [
-        "guards outside solve_sylvester_diagonal and the mask fragment of block_diagonalize (non-block-diagonal H_0, bi-orthonormality, mutually exclusive "
-        "options, implicit-mode restrictions) are exercised by the bounded battery section 'illposed' only",
+        "guards other than those under contract (solve_sylvester_diagonal first use, mask fragment, H_0 block-diagonality / zero-diagonal guard, format converters): "
+        "bi-orthonormality, mutually exclusive options, implicit-mode restrictions are exercised by the bounded battery section 'illposed' only",
     ]
     d.explanation = ("Exceptional postconditions proved on the real code: shared energies between coupled blocks raise ValueError on first use of the pair for "
                      "every block index pair (either orientation) and every right-hand-side type; an accepted pair has |E_a-F_b| > atol everywhere, so every "
                      "division is by a non-zero number (finite results) and nothing is silently left uneliminated; masks that eliminate degenerate pairs or are "
-                     "asymmetric in Hermitian mode raise ValueError; eliminated elements always have |E_a-E_c| > atol.")
+                     "asymmetric in Hermitian mode raise ValueError; eliminated elements always have |E_a-E_c| > atol.  The H_0 guard of block_diagonalize raises ValueError "
+                     "iff some zeroth-order off-diagonal block - for every pair of blocks, the implicit one included - is a numeric non-zero value, and iff the whole diagonal "
+                     "is zero; the format converters reject prefactors in monomial keys, non-commutative symbols, non-Hermitian Taylor coefficients and unsupported types.")
     d.run_battery("bd_battery.py", ["illposed"], "fixed list of ill-posed input classes x request orders x outputs x modes on 2-4 dimensional problems; see replay/bd_battery.py")
     return d.finish(level="proof", trusted_base=["contracts/sylvester.py", "contracts/bd_masks.py", "pyvc/pw.py"])
